@@ -15,11 +15,14 @@
 (* kind "P"  : (filter-condition shape(s), table layout): every operator   *)
 (*             spelling x every value shape, malformed shapes, on the      *)
 (*             empty table, an empty file, and files with rows.            *)
-(* kind "G"  : group states (one per layout and projection); every case is the successor  *)
-(*             of its group so that TLC's workers share the work.          *)
+(* kind "G"  : group states (one per layout and projection); every case   *)
+(*             is the successor of its group so that TLC's workers share   *)
+(*             the work.                                                   *)
 (* kind "T"  : one state carrying the value-level theorem                  *)
 (*             EngineMatchesReference over the whole value/expression      *)
 (*             domain.                                                     *)
+(* Run with StatsPushdown = FALSE, ValidateFirst = TRUE for the code as it *)
+(* is; the other values are the pre-repair companions (see FilterSel).     *)
 (***************************************************************************)
 EXTENDS FilterSel, SequencesExt, FiniteSetsExt, Json, IOUtils
 
@@ -98,11 +101,11 @@ CaseVariants == DOMAIN LowerTab
 UnknownOps == {"gte", "lte", "=>", "=<", "===", "startswith", "like", "not", "!", "", " >", "> ", "is null",
                "is not null", "not_null", "null", "nin", "><", "~", "contains", "equals", "is"}
 Spellings == KnownLower \cup CaseVariants \cup UnknownOps
-PairValues == { <<"scalar", <<0>> >>, <<"none", <<>> >>, <<"seq", <<>> >>, <<"seq", <<0>> >>, <<"seq", <<0, 2>> >>,
+PairValues == { <<"scalar", <<0>> >>, <<"strscalar", <<0>> >>, <<"none", <<>> >>, <<"seq", <<>> >>, <<"seq", <<0>> >>, <<"seq", <<0, 2>> >>,
                 <<"seq", <<2, NULL>> >>, <<"seq", <<0, 1, 2>> >> }
 PairShapes == {Shape("pair", s, TRUE, v[1], v[2]) : s \in Spellings, v \in PairValues}
               \cup {Shape("pair", s, FALSE, v[1], v[2]) : s \in {"5", "None"}, v \in PairValues}
-BareShapes == { Shape("bare", "", TRUE, "scalar", <<0>>), Shape("bare", "", TRUE, "none", <<>>),
+BareShapes == { Shape("bare", "", TRUE, "scalar", <<0>>), Shape("bare", "", TRUE, "strscalar", <<0>>), Shape("bare", "", TRUE, "none", <<>>),
                 Shape("bare", "", TRUE, "hetero", <<>>), Shape("bare", "", TRUE, "homog", <<>>) }
 Shapes == PairShapes \cup BareShapes
 
@@ -160,6 +163,7 @@ FltP(x) == [stage |-> StageP(x), exprs |-> ExprsOfConds(x, Understood)]
 RefMalformedOf(x) == IF x.kind = "P" THEN RefMalformedP(x) ELSE FALSE
 RefExprsOf(x)     == IF x.kind = "P" THEN RefExprsP(x) ELSE x.exprs
 FltOf(x)          == IF x.kind = "P" THEN FltP(x) ELSE [stage |-> "ok", exprs |-> x.exprs]
+StrAsSetOf(x)     == x.kind = "P" /\ \E i \in 1..Len(CondsOf(x)) : StrAsSet(CondsOf(x)[i][2])
 \* Which columns are float/double columns matters to (a) the != arm of file pruning, (b) the signed-zero
 \* `in` arm of the row-group statistics; NaN exists only in a float column b.  All relevant choices:
 FloatChoices(x) ==
@@ -191,10 +195,11 @@ ParserConforms ==
 ApiConforms ==
   c.kind \in {"S", "P"} =>
      \A fc \in FloatChoices(c) : ApiConformsAt(c.files, RefMalformedOf(c), RefExprsOf(c), FltOf(c), c.proj, fc)
-\* ... and for the code as it is: deviations are confined to the two characterised defects.
+\* ... and for the code as it was before the repairs (companion configurations): deviations are confined
+\* to the characterised defects D1-D3.
 ApiConformsModuloKnown ==
   c.kind \in {"S", "P"} =>
-     \A fc \in FloatChoices(c) : ApiConformsModuloKnownAt(c.files, RefMalformedOf(c), RefExprsOf(c), FltOf(c), c.proj, fc)
+     \A fc \in FloatChoices(c) : ApiConformsModuloKnownAt(c.files, RefMalformedOf(c), RefExprsOf(c), FltOf(c), c.proj, fc, StrAsSetOf(c))
 
 (* ------------------------------- export -------------------------------- *)
 LitOut(e) == IF e.op \in SetOps THEN SetToSortSeq(e.lit, <) ELSE <<e.lit>>
@@ -206,12 +211,14 @@ LostIf(files, exprs, fc) ==
   IF StatsPushdown /\ (HasNaN(files) => "b" \in fc) THEN LostToStats(files, exprs, fc) ELSE {}
 OutS(grp, files, exprs) ==
   [kind |-> "S", grp |-> grp, files |-> files, exprs |-> ExprsOut(exprs), sel |-> Sel(files, exprs),
-   \* rows the model of the code as it is predicts scan(verify_checksums=False) loses, per set of float columns
+   \* rows the modelled code version loses on scan(verify_checksums=False), per set of float columns
+   \* (empty unless StatsPushdown, i.e. for the code since 2813326)
    lost |-> [none |-> LostIf(files, exprs, {}), a |-> LostIf(files, exprs, {"a"}),
              b |-> LostIf(files, exprs, {"b"}), ab |-> LostIf(files, exprs, {"a", "b"})]]
 OutP(x) == [kind |-> "P", grp |-> x.grp, files |-> x.files, cond |-> x.cond, condB |-> x.condB,
             refMalformed |-> RefMalformedP(x), refExprs |-> ExprsOut(RefExprsP(x)),
             stage |-> StageP(x), sel |-> Sel(x.files, RefExprsP(x)),
+            strAsSet |-> StrAsSetOf(x), understoodSel |-> Sel(x.files, FltP(x).exprs),
             mScan |-> OutcomeOut(ScanTable(x.files, FltP(x), ProjAll, TRUE, FlNaN(x))),
             mBatches |-> OutcomeOut(ScanBatches(x.files, FltP(x), ProjAll, 2, FlNaN(x)))]
 Meta == [kind |-> "meta", projs |-> SetToSeq(Projs), nS |-> NumCases({"single", "multi"}), nP |-> NumCases({"one", "two"}),
